@@ -1,6 +1,7 @@
 package rules
 
 import (
+	"fmt"
 	"strings"
 
 	"golang.org/x/tools/go/ssa"
@@ -193,8 +194,12 @@ func c20(r *core.Run) {
 			r.Violation("C20/R2", h.Key()+":uses-combiner", p.Pos(h.Fn.Pos()), "the post handler does not derive the entry address with the one-step combiner")
 		} else {
 			a := dataArgs(step)
-			ok := len(a) == 2 && p.OnlyMsgField(p.ProvAt(a[0], "", step), h, "HashParent") && p.OnlyMsgField(p.ProvAt(a[1], "", step), h, "HashChild")
-			r.Check(ok, "C20/R2", h.Key()+":combiner-arguments", p.InstrPos(step), "combiner(msg.HashParent, msg.HashChild)", "the entry address is not combiner(HashParent, HashChild) in that order")
+			// the message fields themselves: not a value chosen between the field and something else (a default parent)
+			tbc := core.NewTermBuilder(p)
+			mp := fmt.Sprintf("P%d", h.MsgIdx)
+			ok := len(a) == 2 && p.OnlyMsgField(p.ProvAt(a[0], "", step), h, "HashParent") && p.OnlyMsgField(p.ProvAt(a[1], "", step), h, "HashChild") &&
+				tbc.Term(a[0]) == mp+".HashParent" && tbc.Term(a[1]) == mp+".HashChild"
+			r.Check(ok, "C20/R2", h.Key()+":combiner-arguments", p.InstrPos(step), "combiner(msg.HashParent, msg.HashChild)", "the entry address is not combiner(msg.HashParent, msg.HashChild), the two message fields as they are, in that order (a substituted parent — e.g. the root folder for an empty HashParent — files a one-segment path under another path's address)")
 			// stored Address / returned Path / owner hash input are this value
 			for _, e := range p.Effects(h.Fn) {
 				call, isCall := e.Instr.(ssa.CallInstruction)
